@@ -89,7 +89,7 @@ pub fn run(args: &[String]) -> i32 {
         eprintln!("start: {e}");
         return 3;
     }
-    s.wait_out("BASE=", 3000);
+    s.wait_out("BASE=", 20000);
     let out = s.stdout();
     let base = match out.lines().find_map(|l| l.strip_prefix("BASE=0x")).and_then(|h| u64::from_str_radix(h.trim(), 16).ok()) {
         Some(b) => b,
@@ -198,7 +198,7 @@ pub fn run(args: &[String]) -> i32 {
         }
     }
     let _ = s.dbg.continue_debugee();
-    s.wait_out("SUM=", 3000);
+    s.wait_out("SUM=", 20000);
     let out = s.stdout();
     let seen_sum = out.lines().find_map(|l| l.strip_prefix("SUM=")).and_then(|v| v.trim().parse::<u64>().ok());
     let program_sees_writes = seen_sum == Some(expect);
